@@ -67,7 +67,7 @@ Definition hypotheses_statement : Prop :=
   (forall P, Bytes (c_ser P)) /\
   (forall P, nth 0 (c_ser P) 0 <> 0) /\
   (forall P, c_zero P = false -> c_parse (c_ser P) = Ok P) /\
-  (forall b P, c_parse b = Ok P -> b = c_ser P /\ c_zero P = false) /\
+  (forall b P, length b = 33%nat -> c_parse b = Ok P -> b = c_ser P /\ c_zero P = false) /\
   (forall a, (0 < a < Bip32Spec.n)%Z -> c_zero (c_mul a) = false) /\
   (forall a b, (0 <= a < Bip32Spec.n)%Z -> (0 <= b < Bip32Spec.n)%Z ->
      c_mul ((a + b) mod Bip32Spec.n) = c_add (c_mul a) (c_mul b)).
@@ -91,7 +91,7 @@ Proof.
     destruct (N.ltb_spec (Z.to_N (val P)) (Z.to_N Bip32Spec.n)) as [_|Hge]; [|lia].
     destruct (N.eqb_spec (Z.to_N (val P)) 0) as [E|_]; [destruct (Z.eqb_spec (val P) 0); [discriminate | lia]|].
     cbn [andb negb]. rewrite Z2N.id by lia. rewrite mk_val. reflexivity.
-  - intros b P. unfold c_parse. destruct b as [|x t]; [discriminate|].
+  - intros b P _. unfold c_parse. destruct b as [|x t]; [discriminate|].
     destruct x as [|x]; [discriminate|]. destruct x as [x|x|]; try discriminate. destruct x; try discriminate.
     destruct (Nat.eqb_spec (length t) 32) as [Hl|]; cbn [andb]; [|discriminate].
     destruct (bytes_ok t) eqn:Hb; cbn [andb]; [|discriminate]. apply bytes_ok_iff in Hb.
